@@ -17,6 +17,7 @@ import dfinv
 import vgen
 import unit_l2_msm
 import unit_l2_rows
+import unit_l2_bias
 from vgen import FnSpec, norm_ws, strip_attrs_and_docs
 from rsx import ToolLimit
 
@@ -24,6 +25,16 @@ PROPS_ENC = {'C09', 'C01', 'C15'}
 PROPS_DEC = {'C02', 'C01', 'C15'}
 
 UNSIGNED = {'U8': ('u8', 8), 'U16': ('u16', 16), 'U32': ('u32', 32), 'U64': ('u64', 64)}
+SIGNED_PUT = '''            #[verifier::external_body]
+            pub fn put_I16(&mut self, value: i16, len: usize) -> (r: Result<(), RtcmError>)
+                requires 1 <= len <= 16, old(self).cap() <= 0x100_0000_0000,
+                ensures
+                    final(self).cap() == old(self).cap(), final(self).poison() == old(self).poison(),
+                    (r is Err) == (old(self).cap() < old(self).bits().len() + len),
+                    r is Err ==> r->Err_0 is BufferOverflow && final(self).bits() == old(self).bits(),
+                    r is Ok ==> final(self).bits() == old(self).bits() + crate::sbits(value as int, len as nat),
+            { unimplemented!() }'''
+
 SIGNED_PARSE = '''            #[verifier::external_body]
             pub fn parse_I16(&mut self, len: usize) -> (r: Result<i16, RtcmError>)
                 requires 1 <= len <= 16,
@@ -55,6 +66,13 @@ pub fn verif_f32_scale(v: i16, k: f32) -> (r: f32) { unimplemented!() }
 pub fn verif_i16_to_f32(v: i16) -> (r: f32) { unimplemented!() }
 #[verifier::external_body]
 pub fn verif_f32_mul(a: f32, k: f32) -> (r: f32) { unimplemented!() }
+// the hand-written bias quantiser (divide by the resolution, add +-0.5 by sign, cast to i16) as an abstract function; its
+// arithmetic is decided by engine S (unit dfvc, fields df_msg10xx_biases__bias_m)
+pub uninterp spec fn bias_q(x: f32, r: f32) -> i16;
+#[verifier::external_body]
+pub fn verif_bias_quant(x: f32, r: f32) -> (q: i16) ensures q == bias_q(x, r), { unimplemented!() }
+// the len-bit two's complement field written for a signed carrier value (unit l0bits: put.field_bits_msb_first on I16)
+pub uninterp spec fn sbits(v: int, len: nat) -> Seq<bool>;
 pub proof fn lemma_seq_assoc(a: Seq<bool>, b: Seq<bool>, c: Seq<bool>)
     ensures (a + b) + c == a + (b + c),
 {
@@ -706,6 +724,8 @@ def emit_module(vf, exp, path, mod, depth, stats, leafs, parent_mod=None):
                 extra = ', ' + m.group(1)
             if fr.name in ('df_msg1059_biases', 'df_msg1065_biases', 'df_msg1230_biases'):
                 emit_bias_decode(vf, exp, path, fr, i2)
+            if unit_l2_bias.is_bias_list(fr):
+                unit_l2_bias.emit(vf, exp, path, fr, i2)
             stub = opaque_frag_stub(fr.name, None, extra)
             if 'msm_rows' in dir() and msm_rows:
                 # row fragments only call data-field encoders: by inspection their only errors are the leaves' (assumed, listed)
@@ -774,7 +794,7 @@ def build(vf, srcs):
     vgen.process_template(vf, os.path.join(common.VERIF, 'contracts', 'l2_prelude.vt'), srcs)
     # strip the closing of the prelude's verus! block: the template leaves it open on purpose
     leaves = '\n'.join(leaf_stub(f) for f in fields)
-    pre = PRELUDE2.replace('@PUTS@', '\n'.join(put_stub(c) for c in UNSIGNED)).replace('@PARSES@', '\n'.join(parse_stub(c) for c in UNSIGNED) + '\n' + SIGNED_PARSE).replace('@LEAVES@', leaves)
+    pre = PRELUDE2.replace('@PUTS@', '\n'.join(put_stub(c) for c in UNSIGNED) + '\n' + SIGNED_PUT).replace('@PARSES@', '\n'.join(parse_stub(c) for c in UNSIGNED) + '\n' + SIGNED_PARSE).replace('@LEAVES@', leaves)
     vf.emit(pre)
     stats = {'record': [], 'opaque': []}
     FRAG_BITS.clear()
